@@ -23,6 +23,7 @@ const OBJECT: u16 = 1 << 5;
 const ARRAY: u16 = 1 << 6;
 const TIMESTAMP: u16 = 1 << 7;
 const REGEX: u16 = 1 << 8;
+pub const REGEX_KIND: u16 = REGEX;
 const NULL: u16 = 1 << 9;
 
 /// Functions whose results depend on the environment / wall clock / network, or that write to
